@@ -243,7 +243,10 @@ where
         &self,
         environment: &chalk_ir::Environment<I>,
     ) -> chalk_ir::ProgramClauses<I> {
-        self.ws.db().program_clauses_for_env(environment)
+        // Elaborate the environment through `self`, not through the wrapped
+        // database: the traits and associated types consulted while
+        // elaborating must be recorded too.
+        crate::clauses::program_clauses_for_env(self, environment)
     }
 
     fn interner(&self) -> I {
